@@ -134,6 +134,12 @@ func (g *gBuilder) args(ifaceSlot bool) string {
 func (g *gBuilder) randomSlots(i int, k int) {
 	typed := []string{"P0", "P1", "P4", "X0", "X0b", "X1", "X2", "X3", "S0", "S1", "S2", "SP0", "SP4", "A0", "AS0"}
 	for j := 0; j < k; j++ {
+		if g.r.P(1, 25) { // an array-typed point (never filled; required ⇒ the start fails): mostly optional
+			if _, ok := g.sc.nodes[i].slots["RR0"]; !ok {
+				g.sc.nodes[i].slots["RR0"] = "w" + []string{",required=false", ",required=false", ",required=false", ""}[g.r.Intn(4)]
+			}
+			continue
+		}
 		s := typed[g.r.Intn(len(typed))]
 		for tries := 0; tries < 6 && !g.satisfiable(i, s) && g.r.P(9, 10); tries++ {
 			s = typed[g.r.Intn(len(typed))]
@@ -519,6 +525,34 @@ func genRetry(r *hx.Rng) *gScen {
 	return g.sc
 }
 
+// a cycle that would close ONLY through an array-typed point: a → b by name, b has an optional `[2]Ifc0` point; a is
+// substituted after initialization (sometimes early as well). The container leaves arrays alone, so nobody holds an early
+// reference of a and the start succeeds with b's array empty.
+func genArrayCycle(r *hx.Rng) *gScen {
+	g := newBuilder(r)
+	a := g.addNode(g.randType(func(u utInfo) bool {
+		for _, x := range u.ifs {
+			if x == 0 {
+				return !u.pp && !u.lazy && !u.runner
+			}
+		}
+		return false
+	}), r.P(1, 3))
+	b := g.addNode(g.randType(func(u utInfo) bool { return !u.pp && !u.lazy }), r.P(1, 3))
+	g.edgeByName(a, b, false)
+	g.sc.nodes[b].slots["RR0"] = "w,required=false"
+	switch r.Intn(3) {
+	case 0:
+		g.sc.nodes[a].after = 2
+	case 1:
+		g.sc.nodes[a].early, g.sc.nodes[a].after = 1, 2
+	}
+	if r.P(1, 2) {
+		g.addNode(g.randType(func(u utInfo) bool { return len(u.ifs) > 0 && !u.pp }), r.P(1, 3))
+	}
+	return g.sc
+}
+
 // several func-tag points with `returns` on ONE holder, over providers that expose the methods with different results
 func genFunc(r *hx.Rng) *gScen {
 	g := newBuilder(r)
@@ -825,6 +859,7 @@ func graphCorpus(w *hx.Writer) {
 		emitGraph(genMatch(r.Fork()), []string{"corpus", "match"}, w)
 		emitGraph(genSliceCycle(r.Fork()), []string{"corpus", "slicecycle"}, w)
 		emitGraph(genSelf(r.Fork()), []string{"corpus", "self"}, w)
+		emitGraph(genArrayCycle(r.Fork()), []string{"corpus", "arraycycle"}, w)
 	}
 }
 
